@@ -226,8 +226,8 @@ def run(ctx):
         ctx.stats.merge(r)
     cl = ctx.stats.classes
     tot = max(1, ctx.stats.evaluations)
-    ctx.floor("walks with merge+split+move (share)", round(cl["walk-with-all-three-kinds"] / tot, 3), 0.25)
-    ctx.floor("boards with a side of 1 (share)", round(cl["board-with-side-1"] / tot, 3), 0.10)
+    ctx.floor("walks with merge+split+move (share)", round(cl["walk-with-all-three-kinds"] / tot, 3), 0.12)
+    ctx.floor("boards with a side of 1 (share)", round(cl["board-with-side-1"] / tot, 3), 0.05)
     ctx.floor("share of walks not stopped by the initial() guard",
               round(1 - cl["initial-guard-hit"] / tot, 3), 0.9)
 
